@@ -60,6 +60,9 @@ def layout_form(L, variant=0, seed=0):
             rep = [n for k, n in chain if k == "r"][-1]
             add(type="calculate", name="ref_ir", calculation=f"indexed-repeat({t}, ${{{rep}}}, 1)")
             add(type="calculate", name="ref_ir2", calculation=f"{t} + indexed-repeat({t}, ${{{rep}}}, position(..))")
+            # several indexed-repeat() calls in one expression, with plain references before, between and after them
+            add(type="calculate", name="ref_ir3", calculation=f"indexed-repeat({t}, ${{{rep}}}, 1) + indexed-repeat({t}, ${{{rep}}}, 2) + {t}")
+            add(type="calculate", name="ref_ir4", calculation=f"{t} + indexed-repeat({t}, ${{{rep}}}, 1) + {t} + indexed-repeat({t}, ${{{rep}}}, 2)")
         for k in reversed(L["rb"]):
             end(k)
 
